@@ -1,5 +1,5 @@
 (* C16/Proofs.v — lemmas about the escape/unescape models. *)
-From XV Require Import lib.Bytes gen.Generated C16.Model.
+From XV Require Import lib.Bytes gen.JidEscape C16.Model.
 
 (* ---------- table facts, re-checked whenever Generated.v changes ---------- *)
 
